@@ -16,7 +16,8 @@ from .sched import ReplayScheduler
 
 INVARIANTS = ["TypeOK", "RegroupProgress", "RegroupIsPartitionByLabel", "HostFreshAfterIter",
               "AllContribsAtCurrentVersion", "ExactlyOncePerMStep", "HandOverFresh"]
-PT_INVARIANTS = ["LeavesConserved", "EveryLeafExactlyOnce", "TreeShape"]
+PT_INVARIANTS = ["LeavesConserved", "EveryLeafExactlyOnce", "TreeShape", "AllContribsAtCurrentVersion",
+                 "HostFreshAfterIter"]
 PT_PROPERTIES = ["Shrinks", "Terminates"]
 
 
@@ -80,10 +81,12 @@ def run_bagtrain(ck, name, scn=(), gen=(1, 0, 1), modes=("Shared",), kinds=("ISV
     return r
 
 
-def run_pairtree(ck, name, maxlen, dev=(), invariants=PT_INVARIANTS, properties=PT_PROPERTIES, export=True,
-                 expect_violation=False, coverage=False):
-    text = mc.module("MC_PairTree", ["PairTree"], {"MC_Dev": _set(tla(d) for d in dev)})
-    cfg = mc.cfg(consts={"MaxLen": maxlen}, subst={"Dev": "MC_Dev"}, invariants=invariants, properties=properties,
+def run_pairtree(ck, name, maxlen, modes=("Shared", "Isolated"), maxiter=2, dev=(), invariants=PT_INVARIANTS,
+                 properties=PT_PROPERTIES, export=True, expect_violation=False, coverage=False):
+    text = mc.module("MC_PairTree", ["PairTree"], {"MC_Dev": _set(tla(d) for d in dev),
+                                                   "MC_Modes": _set(tla(m) for m in modes)})
+    cfg = mc.cfg(consts={"MaxLen": maxlen, "MaxIter": maxiter}, subst={"Dev": "MC_Dev", "Modes": "MC_Modes"},
+                 invariants=invariants, properties=properties,
                  constraints=["Export"] if export else [])
     r = tlc.run(ck.work, "MC_PairTree", cfg, root_text=text, workers=4, coverage=coverage,
                 expect_violation=expect_violation)
